@@ -41,3 +41,24 @@ func ZZSetRandIntn(f func(int) int) (restore func()) {
 	randIntn = f
 	return func() { randIntn = old }
 }
+
+type ZZTargetInfo struct {
+	Host, Path, Service, URL string
+	FixedWeight, Weight      float64
+	Tags                     []string
+	Opts                     map[string]string
+}
+
+// ZZTargets lists every target of t.
+func ZZTargets(t Table) []ZZTargetInfo {
+	var out []ZZTargetInfo
+	for _, routes := range t {
+		for _, r := range routes {
+			for _, tg := range r.Targets {
+				out = append(out, ZZTargetInfo{Host: r.Host, Path: r.Path, Service: tg.Service, URL: tg.URL.String(),
+					FixedWeight: tg.FixedWeight, Weight: tg.Weight, Tags: tg.Tags, Opts: tg.Opts})
+			}
+		}
+	}
+	return out
+}
